@@ -11,6 +11,7 @@ every history of calls on one instance. The specification is `Spec.Taxo.translat
 import Paroxy.Spec.Taxonomy
 import Paroxy.Spec.TaxonomyDefault
 import Paroxy.Proofs.Taxonomy
+import Paroxy.Proofs.ToTaxa
 namespace Paroxy.Props.C09
 open Paroxy Paroxy.Taxo Paroxy.Spec.Taxo Paroxy.TaxoProofs
 
@@ -62,11 +63,23 @@ theorem C09_bag {σ : Type} [DecidableEq σ] (o : Oracle) (rows : List Row) (st 
   have := (accumulate_ok o rows labels t s st [] h.ok).1
   simpa [accCount, dget] using this
 
+/-- **C09 (keys).** The accumulator of `to_taxa` has exactly one key per taxon some label translates
+to — also when the label's span list is empty (`acc[t]` is then an empty Counter) — and no other. -/
+theorem C09_keys {σ : Type} [DecidableEq σ] (o : Oracle) (rows : List Row) (st : State)
+    (h : Reachable o rows st) (labels : List (Str × List σ)) :
+    ((accumulate o st [] labels).2.map Prod.fst).Nodup ∧
+      ∀ t, t ∈ (accumulate o st [] labels).2.map Prod.fst ↔ t ∈ rawKeys o rows labels := by
+  refine ⟨(ToTaxa.accOK_accumulate o labels st [] ⟨by simp, by intro e he; cases he⟩).1, fun t => ?_⟩
+  have := ToTaxa.keys_accumulate o rows labels t st [] h.ok
+  simpa using this
+
 /-- **C09 (reading the table).** A taxonomy text that passes the executable check `tableOk` (every
 data line before `-- EOF` has at least two fields, no row twice, at least one row) is read without
-error into exactly the rows of its data lines — in sorted-line order — all distinct. The driver
-evaluates `tableOk` on the default table (`Gen.TaxonomyCodes`, regenerated from /repo) on every run;
-in the kernel that computation takes minutes, so it is not repeated here as a `decide`. -/
+error into exactly the rows of its data lines — in sorted-line order — all distinct.
+NOT PROVED HERE: that the default table satisfies `tableOk`. That is only *evaluated* by the native
+driver on `Gen.TaxonomyCodes` (regenerated from /repo) on every run and reported in the evidence
+(`default_table_ok`); in the kernel the computation takes minutes (`List.mergeSort` does not reduce,
+`Char` arithmetic is slow), so there is no `decide` of it. -/
 theorem C09_table_wf (text : Str) (h : tableOk text = true) :
     ∃ rows, parseTsv text = .ok rows ∧ rows.Perm ((rawLines text).map parseLineD) ∧ rows.Nodup ∧
       rows ≠ [] :=
